@@ -328,6 +328,53 @@ func RankGens(base []int64, lines []string) []string {
 	return out
 }
 
+var anyGenRe = regexp.MustCompile(`#g?(-?\d+)`)
+var objGenRe = regexp.MustCompile(`b=(\S+) name=(\S+) [^#]*gen=#g?(-?\d+)`)
+
+// RankGensPerObject replaces every generation token (#g<raw> of the implementation, #<n> of the
+// Model) by its rank among the generations of the same object occurring in the lines.  Which object
+// a generation belongs to is read off the object resources in the lines (a generation names one
+// version of one object); a token whose generation occurs in no resource is ranked among its like.
+// Generations of different objects are deliberately not compared: the properties order the versions
+// of one object, not the instants at which unrelated objects were written.
+func RankGensPerObject(lines []string) []string {
+	owner := map[int64]string{}
+	for _, l := range lines {
+		for _, m := range objGenRe.FindAllStringSubmatch(l, -1) {
+			g, _ := strconv.ParseInt(m[3], 10, 64)
+			if _, ok := owner[g]; !ok {
+				owner[g] = m[1] + "/" + m[2]
+			}
+		}
+	}
+	per := map[string][]int64{}
+	seen := map[int64]bool{}
+	for _, l := range lines {
+		for _, m := range anyGenRe.FindAllStringSubmatch(l, -1) {
+			g, _ := strconv.ParseInt(m[1], 10, 64)
+			if !seen[g] {
+				seen[g] = true
+				per[owner[g]] = append(per[owner[g]], g)
+			}
+		}
+	}
+	rank := map[int64]int{}
+	for _, gs := range per {
+		sort.Slice(gs, func(i, j int) bool { return gs[i] < gs[j] })
+		for i, g := range gs {
+			rank[g] = i + 1
+		}
+	}
+	out := make([]string, len(lines))
+	for i, l := range lines {
+		out[i] = anyGenRe.ReplaceAllStringFunc(l, func(tok string) string {
+			g, _ := strconv.ParseInt(strings.TrimPrefix(tok[1:], "g"), 10, 64)
+			return fmt.Sprintf("#%d", rank[g])
+		})
+	}
+	return out
+}
+
 type objJSON struct {
 	Bucket         string            `json:"bucket"`
 	Name           string            `json:"name"`
